@@ -24,6 +24,13 @@ package tengo
 //@ global ErrInvalidRangeStep
 
 // ---------------------------------------------------------------------------
+// data-structure invariants = write-site inventories (C06)
+// ---------------------------------------------------------------------------
+
+//@ fieldinv String.Value strlimit{C06}: len(v) <= MaxStringLen
+//@ fieldinv Bytes.Value byteslimit{C06}: len(v) <= MaxBytesLen
+
+// ---------------------------------------------------------------------------
 // external functions (assumed contracts)
 // ---------------------------------------------------------------------------
 
@@ -177,3 +184,26 @@ package tengo
 //@   ensures length: len(result.(*Bytes).Value) == len(o.Value)
 //@   ensures storage: fresh(result.(*Bytes).Value)
 //@   ensures content: forall i in 0..len(o.Value) :: result.(*Bytes).Value[i] == old(o.Value[i])
+
+// ---------------------------------------------------------------------------
+// C06: string / bytes limits at the remaining allocation sites
+// ---------------------------------------------------------------------------
+
+// Format runs the fmt port under a deferred recover (outside the subset): the
+// limit clause is assumed here and is what the fmtbuf write guards provide.
+//@ func Format
+//@   mode assumed defer+recover
+//@   assigns nothing
+//@   ensures limit{C06}: res1 == nil ==> len(res0) <= MaxStringLen
+
+// module names are chosen by the embedder when registering the module
+//@ func (*BuiltinModule).AsImmutableMap
+//@   props C06 C09
+//@   requires len(moduleName) <= MaxStringLen
+//@   assigns nothing
+
+// Compile is not yet inside the verifier's reach as a whole (recursive, 1 667
+// SSA instructions, inlines the module loader); its String.Value sites (the
+// string-literal arm) are inventoried but not proved.
+//@ func (*Compiler).Compile
+//@   mode unverified too large for inlining; needs contracts on its helpers
